@@ -99,7 +99,7 @@ def build(tname, rows, dtype_variant=0):
                 dt = np.int64
             cols.append(np.array(vals, dtype=dt) if dtype_variant % 3 else list(vals) if vals else np.array([], dtype=int))
         elif kind == "float":
-            if dtype_variant % 2 == 1 and vals and all(float(v).is_integer() and abs(v) < 2 ** 40 for v in vals):
+            if dtype_variant % 2 == 1 and vals and all(float(v).is_integer() and abs(v) < 2 ** 40 and repr(float(v)) != "-0.0" for v in vals):
                 cols.append(np.array([int(v) for v in vals], dtype=np.int64))       # whole numbers given as ints
             else:
                 cols.append(np.array(vals, dtype=np.float64))
